@@ -170,6 +170,48 @@ theorem C20_moved_from_empty (w : World) (i j : Nat) (hij : i ≠ j) :
     simpa [World.get, World.put] using this
 
 
+/-- **failing_read_any_stage**: with the read guard in force (C07 / C20-11; `Cfg.repaired` and `Cfg.head` have it), a read
+    into an empty table which fails at ANY stage of `read_fits_core` — before `ndim` is assigned (`kind = 1`: open, first
+    HDU, dimension count), at the `ORDERi` keys (2), at the size of the coefficient image (4), at the coefficient pixels
+    (5: e.g. a file cut short inside the primary data), at the header / size (3) or the data (6) of any knot vector, at
+    the extents data (7) — and under any position of an injected allocation failure: throws, leaves the abstract state
+    of the table as it was (empty), and has returned every block it obtained exactly once (`InvX`: ledger = blocks
+    owned = nothing, no bad release).  The failure stages of the model are failures indeed (not silently successful). -/
+theorem C20_failing_read_any_stage (c : Cfg) (hg : c.readGuard = true) (t : Tab) (cd : Option Nat) (f : FileDesc)
+    (h : t.InvX) (h0 : t.ndim = 0) (hs : c.readAuxExact = true ∨ ∀ e ∈ f.aux, e.stored = e.raw)
+    (hf : f.kind = 1 ∨ f.failsLate) :
+    (Lifecycle.read c t cd f).res = .threw ∧ (Lifecycle.read c t cd f).tab.shape = t.shape ∧ (Lifecycle.read c t cd f).tab.InvX ∧
+      (Lifecycle.read c t cd f).tab.ledger = [] := by
+  have hspec := read_spec c t cd f h (Or.inr ⟨Or.inl hg, hs⟩)
+  have key : (Lifecycle.read c t cd f).res = .threw ∧ (Lifecycle.read c t cd f).tab.shape = t.shape := by
+    unfold Lifecycle.read
+    rw [if_neg (by simp [h0])]
+    split
+    · exact ⟨rfl, rfl⟩
+    · rename_i hk
+      have hl : f.failsLate := hf.resolve_left fun e => hk (Or.inl e)
+      have hno := runSteps_fail (readSteps c f) cd [] (fail_mem_readSteps c f hl)
+      simp [build, hno, hg, Tab.apply, Tab.shape]
+  refine ⟨key.1, key.2, hspec.inv, ?_⟩
+  have hn : (Lifecycle.read c t cd f).tab.ndim = 0 := by
+    have := key.2; simp only [Tab.shape, Prod.mk.injEq] at this; rw [this.1]; exact h0
+  exact hspec.inv.ledger_nil hn
+
+/-- the hypotheses are satisfiable: a two-dimensional file with a key whose value changes size, every failing stage
+    (for the per-knot-vector stages: both dimensions), the empty table, an allocation failure before the stage -/
+example : ∀ f ∈ ([(1, 0), (2, 0), (3, 0), (3, 1), (4, 0), (5, 0), (6, 0), (6, 1), (7, 0)].map fun ka =>
+    (⟨ka.1, ka.2, [⟨2, 8, 5⟩, ⟨1, 6, 4⟩], true, [⟨7, 4, 11, 9⟩]⟩ : FileDesc)), f.kind = 1 ∨ f.failsLate := by decide
+example : Tab.empty.InvX ∧ Tab.empty.ndim = 0 := ⟨Tab.empty_invX, rfl⟩
+/-- what the stages look like on that file, no allocation failure: the coefficient stage (5) obtains 14 blocks (aux store 4 and
+    the raw value block exchanged for the exact one, order, periods, knots, nknots, extents 2, naxes, strides, coefficients:
+    15 events) and returns the 13 it still holds; stage 6 of dimension 1
+    has also obtained both knot vectors -/
+example : ((read Cfg.repaired Tab.empty none ⟨5, 0, [⟨2, 8, 5⟩, ⟨1, 6, 4⟩], true, [⟨7, 4, 11, 9⟩]⟩).evs.length,
+           (read Cfg.repaired Tab.empty none ⟨6, 1, [⟨2, 8, 5⟩, ⟨1, 6, 4⟩], true, [⟨7, 4, 11, 9⟩]⟩).evs.length,
+           (read Cfg.repaired Tab.empty none ⟨4, 0, [⟨2, 8, 5⟩, ⟨1, 6, 4⟩], true, [⟨7, 4, 11, 9⟩]⟩).evs.length,
+           (read Cfg.repaired Tab.empty (some 9) ⟨5, 0, [⟨2, 8, 5⟩, ⟨1, 6, 4⟩], true, [⟨7, 4, 11, 9⟩]⟩).res) =
+          (28, 32, 22, Res.threw) := by decide
+
 
 /-! ## Non-vacuity: concrete histories exercising the hypotheses -/
 
